@@ -28,6 +28,8 @@ def skeletons():
         ("star4", 5, [(0, i) for i in range(1, 5)]),
         ("star5", 6, [(0, i) for i in range(1, 6)]),
         ("star6", 7, [(0, i) for i in range(1, 7)]),
+        # centres with more ligands than any descriptor class has positions (IF7, MoH4(PH3)3 ...): no descriptor, mixed ligands
+        ("star7", 8, [(0, i) for i in range(1, 8)]),
         ("ethene", 6, [(0, 1), (0, 2), (0, 3), (1, 4), (1, 5)]),
         ("imine", 5, [(0, 1), (0, 2), (0, 3), (1, 4)]),
         ("P3+atom", 4, [(0, 1), (1, 2)]),
